@@ -460,6 +460,7 @@ package eventbus
 //@   chaninv done wgWaited(&bus.wg)
 //@   ensures [C06.shutdown.nil] result == nil ==> wgWaited(&bus.wg)
 //@   at call:interface{Close() error}.Close assert [C06.shutdown.closeAfterWait] wgWaited(&bus.wg) && cnt(storeClose) == 0
+//@   ensures [C06.shutdown.closes] result == nil && bus.store != nil && implements_iface_Close_(dynType(bus.store)) ==> cnt(storeClose) == 1 && lastarg(storeClose, 0, Iface) == bus.store
 //@   ensures [C06.shutdown.closeErr] cnt(storeClose) == 1 && lastres(storeClose, Iface) != nil ==> result != nil
 //@   ensures [C06.shutdown.ctx] cnt(storeClose) <= 1 && (ctxSeenDone(ctx) && cnt(storeClose) == 0 ==> result != nil)
 
@@ -506,61 +507,71 @@ package eventbus
 //@   fact persists(self, bus)
 
 //@ func WithBeforePublishContext$1
-//@   props C09
+//@   props C09 C08
+//@   ensures [C08.option.sets] bus.store == nil ==> bus.beforePublishCtx == hook
 //@   requires bus != nil && PersistInv(bus)
 //@   ensures [C09.option.preserves] PersistInv(bus)
 //@   ensures [C01.option.frame] {C01} bus.shards == old(bus.shards)
 
 //@ func WithPanicHandler$1
-//@   props C09
+//@   props C09 C05
+//@   ensures [C05.option.sets] bus.panicHandler == handler
 //@   requires bus != nil && PersistInv(bus) && bus.upcastRegistry != nil
 //@   ensures [C09.option.preserves] PersistInv(bus)
 //@   ensures [C01.option.frame] {C01} bus.shards == old(bus.shards)
 
 //@ func WithBeforePublish$1
-//@   props C09
+//@   props C09 C08
+//@   ensures [C08.option.sets] bus.beforePublish == hook
 //@   requires bus != nil && PersistInv(bus) && bus.upcastRegistry != nil
 //@   ensures [C09.option.preserves] PersistInv(bus)
 //@   ensures [C01.option.frame] {C01} bus.shards == old(bus.shards)
 
 //@ func WithAfterPublish$1
-//@   props C09
+//@   props C09 C08
+//@   ensures [C08.option.sets] bus.afterPublish == hook
 //@   requires bus != nil && PersistInv(bus) && bus.upcastRegistry != nil
 //@   ensures [C09.option.preserves] PersistInv(bus)
 //@   ensures [C01.option.frame] {C01} bus.shards == old(bus.shards)
 
 //@ func WithAfterPublishContext$1
-//@   props C09
+//@   props C09 C08
+//@   ensures [C08.option.sets] bus.afterPublishCtx == hook
 //@   requires bus != nil && PersistInv(bus) && bus.upcastRegistry != nil
 //@   ensures [C09.option.preserves] PersistInv(bus)
 //@   ensures [C01.option.frame] {C01} bus.shards == old(bus.shards)
 
 //@ func WithPersistenceErrorHandler$1
-//@   props C09
+//@   props C09 C13
+//@   ensures [C13.option.sets] bus.persistenceErrorHandler == handler
 //@   requires bus != nil && PersistInv(bus) && bus.upcastRegistry != nil
 //@   ensures [C09.option.preserves] PersistInv(bus)
 //@   ensures [C01.option.frame] {C01} bus.shards == old(bus.shards)
 
 //@ func WithPersistenceTimeout$1
-//@   props C09
+//@   props C09 C13
+//@   ensures [C13.option.sets] bus.persistenceTimeout == timeout
 //@   requires bus != nil && PersistInv(bus) && bus.upcastRegistry != nil
 //@   ensures [C09.option.preserves] PersistInv(bus)
 //@   ensures [C01.option.frame] {C01} bus.shards == old(bus.shards)
 
 //@ func WithReplayBatchSize$1
-//@   props C09
+//@   props C09 C11
+//@   ensures [C11.option.sets] bus.replayBatchSize == size
 //@   requires bus != nil && PersistInv(bus) && bus.upcastRegistry != nil
 //@   ensures [C09.option.preserves] PersistInv(bus)
 //@   ensures [C01.option.frame] {C01} bus.shards == old(bus.shards)
 
 //@ func WithObservability$1
-//@   props C09
+//@   props C09 C20
+//@   ensures [C20.option.sets] bus.observability == obs
 //@   requires bus != nil && PersistInv(bus) && bus.upcastRegistry != nil
 //@   ensures [C09.option.preserves] PersistInv(bus)
 //@   ensures [C01.option.frame] {C01} bus.shards == old(bus.shards)
 
 //@ func WithSubscriptionStore$1
-//@   props C09
+//@   props C09 C12
+//@   ensures [C12.option.sets] bus.subscriptionStore == store
 //@   requires bus != nil && PersistInv(bus) && bus.upcastRegistry != nil
 //@   ensures [C09.option.preserves] PersistInv(bus)
 //@   ensures [C01.option.frame] {C01} bus.shards == old(bus.shards)
